@@ -541,6 +541,42 @@ def value_level(ctx, starts):
         E = PR([])
         if V(A + E) != V(A) or V(E + A) != V(A):
             ctx.violation("identity:%d" % ia, "the empty result is not an identity of + on the views", {"kind": "monoid", "a": a})
+    # --- concatenation never changes its operands: c = copy(a); c += b / a + b / sum / b-side copies, for operands whose names
+    #     overlap with DIFFERENT flags (ordinary in one, list-all in the other), nested groups included
+    import pyparsing as _pp
+    _w, _n = _pp.Word(_pp.alphas), _pp.Word(_pp.nums)
+    factories = [
+        ("modal-x", lambda: (_w("x") + _pp.Group(_w("k") + _n("v"))("g") + _w("y")).parse_string("p key 7 q")),
+        ("listall-x", lambda: _n("x*")[1, ...].parse_string("1 2")),
+        ("listall-y-g", lambda: (_pp.Group(_n("v*")[1, ...])("g*") + _w("y*")).parse_string("3 4 r")),
+        ("modal-v", lambda: (_n("v") + _w("k")).parse_string("5 s")),
+        ("plain", lambda: C.build(K.P_PLAIN)), ("named", lambda: C.build(K.P_NAMED)), ("nested", lambda: C.build(K.P_NESTED)),
+    ]
+    obs = lambda r: (r.as_list(), r.as_dict(), r.dump(), list(r.keys()), len(r))
+
+    def nested_iadd(a, b, kind):
+        d = do_copy(kind, a)
+        for i, t in enumerate(list(d)):
+            if isinstance(t, PR):
+                t += b
+    steps = [("copy+=", lambda a, b: do_copy("copy", a).__iadd__(b)), ("copycopy+=", lambda a, b: do_copy("copycopy", a).__iadd__(b)),
+             ("deepcopy+=", lambda a, b: do_copy("deepcopy", a).__iadd__(b)), ("deepcopy_method+=", lambda a, b: do_copy("deepcopy_method", a).__iadd__(b)),
+             ("pickle+=", lambda a, b: do_copy("pickle", a).__iadd__(b)), ("add", lambda a, b: a + b), ("radd-sum", lambda a, b: sum([a, b])),
+             ("sum3", lambda a, b: sum([a, b, a])), ("nested-deepcopy+=", lambda a, b: nested_iadd(a, b, "deepcopy")),
+             ("nested-deepcopy_method+=", lambda a, b: nested_iadd(a, b, "deepcopy_method"))]
+    for na, fa in factories:
+        for nb, fb in factories:
+            for ns, step in steps:
+                a, b = fa(), fb()
+                oa, ob = obs(a), obs(b)
+                step(a, b)
+                ctx.stat("concat_operand_checks")
+                if obs(a) != oa or obs(b) != ob:
+                    which = "left" if obs(a) != oa else "right"
+                    ctx.violation("concat-changes-operand:%s:%s:%s" % (ns, na, nb),
+                                  "%s on (%s, %s) changed its %s operand: %r -> %r" % (ns, na, nb, which, (oa if which == "left" else ob)[1],
+                                                                                     (obs(a) if which == "left" else obs(b))[1]),
+                                  {"kind": "concat-operand", "step": ns, "a": na, "b": nb})
     # designated probe of the recorded finding: a falsy operand carrying a list-all name
     a, b, c = PR(['u'], 'x', asList=False), PR([], 'x', modal=False), PR(['v'], 'x', asList=False)
     if V((a + b) + c) != V(a + (b + c)):
@@ -590,6 +626,9 @@ def replay(ctx, obj):
         x, y = ((a + b) + c)['x'], (a + (b + c))['x']
         print("((a+b)+c)['x'] = %r ; (a+(b+c))['x'] = %r" % (x, y))
         return C.canon(x) == C.canon(y)
+    if r.get("kind") == "concat-operand":
+        print("re-run `./check C11`: the scenario %r is regenerated by value_level()" % (r,))
+        return False
     if r.get("kind") == "monoid":
         V = lambda x: C.norm(C.vcanon(C.canon(x)))
         a = C.build(r["a"]); b = C.build(r.get("b", K.P_EMPTY)); c = C.build(r.get("c", K.P_EMPTY))
